@@ -1,17 +1,22 @@
 (* C18 — disconnect semantics: wills run once, nothing leaks or misroutes.
    Statements only; model coq/Conn/Conn.v (on top of coq/Engine/*.v), proofs coq/Conn/ConnProofs.v.
    cfg = the source-derived switches (will type rewrite in the text handlers, self-forward guard, closed guard of the
-   text result push); checks/C18.py recomputes them from server/protocol.go and names the variant in force. *)
+   text result push, AddProxy result honoured when a proxy is re-pointed); checks/C18.py recomputes them from
+   server/protocol.go and names the variant in force.
+   A command is an `xcmd` = DbId + LOCK/UNLOCK command; `db_missing` = the DbId for which ProcessCommad answers
+   RESULT_UNKNOWN_DB (and returns an error when that answer cannot be written) instead of entering the engine. *)
 From Coq Require Import List NArith ZArith Bool.
-From Slock Require Import Engine.Types Engine.Engine2 Conn.Conn Conn.ConnProofs.
+From Slock Require Import Engine.Types Engine.Engine2 Conn.Conn Conn.ConnProofs Conn.ConnRoute.
 Import ListNotations.
 Open Scope N_scope.
 
 (* (a) Wills: exactly once, in registration order, at Close, never earlier.  A connection c that does not exist yet is
    opened -- binary under every variant, text under the variants that rewrite the will type -- and ANY actions follow
    (of any connections, sweeps, its own Close at any point, by whatever cause).  If the process survives and c's Close
-   does not block, the engine calls made on behalf of c's wills are: none while c is open; exactly its registrations,
-   each once, in order, once it is closed. *)
+   does not block, the will commands executed on behalf of c (will_steps: ProcessCommad reached db.Lock / db.UnLock, or
+   -- for a will naming a missing database -- answered RESULT_UNKNOWN_DB, failed to write it and returned the error)
+   are: none while c is open; exactly its registrations, each once, in order, once it is closed.  The registrations
+   are arbitrary: a failing will is consumed like any other and does not stop the drain. *)
 Theorem C18_wills_exactly_once : forall cf st1 c k acts,
   aget (cs_conns st1) c = None ->
   (k = KText -> fix_will_lock cf = true /\ fix_will_unlock cf = true) ->
@@ -33,6 +38,17 @@ Example C18_wills_exactly_once_nonvacuous_text :
   cs_dead (fst r) = false /\ cs_stuck (fst r) = [] /\ is_open (cs_conns (fst r)) 1 = false /\
   will_steps 1 (events (snd r)) = [lockc 1000001 101 7 0 30; lockc 1000002 102 8 0 30].
 Proof. exact text_wills_example. Qed.
+(* failing wills (missing database 9, DbId 0xff) between ordinary ones: all executed in order, the ordinary ones after
+   a failing one still take effect in the engine *)
+Example C18_wills_exactly_once_nonvacuous_failing :
+  let r := crun cf_repaired (init_cstate 1000000 1) (COpen 1 KBin :: w_failing_wills) in
+  cs_dead (fst r) = false /\ cs_stuck (fst r) = [] /\ is_open (cs_conns (fst r)) 1 = false /\
+  will_steps 1 (events (snd r)) =
+    [unlockd 9 12 101 7; unlockc 13 101 7; lockd 255 14 103 8 0 30; lockc 15 102 8 0 30; unlockd 255 16 102 8] /\
+  regs 1 (events (snd r)) = will_steps 1 (events (snd r)) /\
+  map db_missing (will_steps 1 (events (snd r))) = [true; false; true; false; true] /\
+  n_locked (cnt (cs_db (fst r))) = 1%Z /\ n_unlock (cnt (cs_db (fst r))) = 1%Z.
+Proof. exact failing_wills_example. Qed.
 
 (* while the connection is open its will queue is exactly what it registered, in order *)
 Theorem C18_will_queue_is_registrations : forall cf st1 c k acts,
@@ -64,14 +80,15 @@ Example C18_wills_only_at_close_nonvacuous :
 Proof. split; [discriminate|]. vm_compute. split; reflexivity. Qed.
 
 (* (b) Holds and queued requests: a Close that runs to its end changes the lock engine exactly as if the connection had
-   issued its (runnable) will commands as ordinary requests one after the other -- nothing else of the engine is touched,
-   so holds stay until unlocked / expired and queued requests end as the engine theorems (C03, C05, C06) say. *)
+   issued its (runnable) will commands as ordinary requests one after the other (eng_step: the engine's request step;
+   the identity for a will naming a missing database) -- nothing else of the engine is touched, so holds stay until
+   unlocked / expired and queued requests end as the engine theorems (C03, C05, C06) say. *)
 Theorem C18_close_engine_effect : forall cf st c kr,
   aget (cs_conns st) c = Some kr -> cs_dead st = false ->
   cs_dead (fst (cstep cf st (CClose c))) = false -> ~ In c (cs_stuck (fst (cstep cf st (CClose c)))) ->
   cs_db (fst (cstep cf st (CClose c))) =
   if k_open kr && match k_kind kr with KBin => true | KText => negb (text_busy st c) end
-  then fold_left (fun d cm => fst (step d (AReq c cm))) (runnable (wills_of st c)) (cs_db st)
+  then fold_left (eng_step c) (runnable (wills_of st c)) (cs_db st)
   else cs_db st.
 Proof. exact close_engine_effect. Qed.
 Goal True. idtac "ASSUMPTIONS-OF C18_close_engine_effect". Abort.
@@ -115,6 +132,114 @@ Example C18_routing_nonvacuous :
   let r' := crun cf_repaired (init_cstate 1000000 1)
              [COpen 1 KBin; CInit 1 5; CReq 1 (lockc 11 101 7 0 3); CClose 1; COpen 2 KBin; CInit 2 6; CAdvance 5; CSweepE] in
   frame_to 2 1 (events (snd r')) = false.
+Proof. vm_compute. repeat split; reflexivity. Qed.
+
+
+(* (c') Replies across reconnects, for every run from the initial state -- every interleaving of requests, wills, INIT
+   and re-INIT, Close (with replies produced while it drains the wills) and sweeps -- under the variant in which a
+   proxy is re-pointed only to a connection that accepted it (chk_addproxy, derived from the source).
+
+   A proxy only ever points at an OPEN connection: its own, or one that announced the client id of the proxy's closed
+   connection. *)
+Theorem C18_proxy_target_accepting : forall cf t0 aoft acts,
+  chk_addproxy cf = true ->
+  let st := fst (crun cf (init_cstate t0 aoft) acts) in
+  forall p c, aget (r_target (cs_rs st)) p = Some (Some c) ->
+    is_open (cs_conns st) c = true /\
+    (c = p \/ (is_open (cs_conns st) p = false /\ In (k_cid (conn_of (cs_conns st) p)) (evr (cs_ever st) c))).
+Proof. exact proxy_target_accepting. Qed.
+Goal True. idtac "ASSUMPTIONS-OF C18_proxy_target_accepting". Abort.
+Print Assumptions C18_proxy_target_accepting.
+
+(* SLock.clients[X] is an open binary connection whose current announced id is X ... *)
+Theorem C18_registered_is_live_announcer : forall cf t0 aoft acts,
+  chk_addproxy cf = true ->
+  let st := fst (crun cf (init_cstate t0 aoft) acts) in
+  cs_dead st = false ->
+  forall X c, aget (cs_clients st) X = Some c -> ~ In c (cs_stuck st) ->
+    is_open (cs_conns st) c = true /\ k_kind (conn_of (cs_conns st) c) = KBin /\
+    k_inited (conn_of (cs_conns st) c) = true /\ k_cid (conn_of (cs_conns st) c) = X /\ In X (evr (cs_ever st) c).
+Proof. exact registered_is_live_announcer. Qed.
+Goal True. idtac "ASSUMPTIONS-OF C18_registered_is_live_announcer". Abort.
+Print Assumptions C18_registered_is_live_announcer.
+
+(* ... namely the one that announced X most recently: an accepted INIT registers the connection, and the entry stays
+   until that connection re-INITs or closes or another connection announces X (any state, any variant) *)
+Theorem C18_init_registers : forall cf st c cid k,
+  cs_dead st = false -> aget (cs_conns st) c = Some k -> k_open k = true -> k_kind k = KBin ->
+  aget (cs_clients (fst (cstep cf st (CInit c cid)))) cid = Some c /\
+  In cid (evr (cs_ever (fst (cstep cf st (CInit c cid)))) c).
+Proof. exact init_registers. Qed.
+Goal True. idtac "ASSUMPTIONS-OF C18_init_registers". Abort.
+Print Assumptions C18_init_registers.
+
+Theorem C18_registration_stable : forall cf st a X c,
+  aget (cs_clients st) X = Some c ->
+  match a with CInit c' X' => c' <> c /\ X' <> X | CClose c' => c' <> c | _ => True end ->
+  aget (cs_clients (fst (cstep cf st a))) X = Some c.
+Proof. exact registration_stable. Qed.
+Goal True. idtac "ASSUMPTIONS-OF C18_registration_stable". Abort.
+Print Assumptions C18_registration_stable.
+
+(* never to an unrelated client: every frame emitted by any step in any reachable state goes to the requester itself,
+   or the requester is closed and the receiver is an open connection that announced the requester's client id *)
+Theorem C18_frames_never_to_stranger : forall cf t0 aoft acts a,
+  chk_addproxy cf = true ->
+  let st := fst (crun cf (init_cstate t0 aoft) acts) in
+  let st' := fst (cstep cf st a) in
+  forall to o r, In (CFrame to o r) (snd (cstep cf st a)) ->
+    is_open (cs_conns st') to = true /\
+    (to = o \/ (is_open (cs_conns st') o = false /\ In (k_cid (conn_of (cs_conns st') o)) (evr (cs_ever st') to))).
+Proof. exact frames_never_to_stranger. Qed.
+Goal True. idtac "ASSUMPTIONS-OF C18_frames_never_to_stranger". Abort.
+Print Assumptions C18_frames_never_to_stranger.
+
+(* delivered or dropped: in every reachable state an asynchronous reply for a closed connection p with client id X is
+   delivered to the open connection that adopted p's proxy, else to the connection registered under X (which then
+   adopts the proxy); it is dropped only when there is neither *)
+Theorem C18_reply_delivered_or_dropped : forall cf t0 aoft acts,
+  chk_addproxy cf = true ->
+  let st := fst (crun cf (init_cstate t0 aoft) acts) in
+  cs_dead st = false ->
+  forall p r, is_open (cs_conns st) p = false ->
+    let X := k_cid (conn_of (cs_conns st) p) in
+    (forall c, aget (cs_clients st) X = Some c -> ~ In c (cs_stuck st)) ->
+    let res := async_result cf (cs_conns st) (cs_clients st) (cs_rs st) p r in
+    snd res = OOk /\
+    match aget (r_target (cs_rs st)) p with
+    | Some (Some t) =>
+        snd (fst res) = [CFrame t p r] /\ is_open (cs_conns st) t = true /\ In X (evr (cs_ever st) t)
+    | _ =>
+        match aget (cs_clients st) X with
+        | Some c => snd (fst res) = [CFrame c p r] /\ is_open (cs_conns st) c = true /\ In X (evr (cs_ever st) c) /\
+                    aget (r_target (fst (fst res))) p = Some (Some c)
+        | None => snd (fst res) = [CDropped p r]
+        end
+    end.
+Proof. exact reply_delivered_or_dropped. Qed.
+Goal True. idtac "ASSUMPTIONS-OF C18_reply_delivered_or_dropped". Abort.
+Print Assumptions C18_reply_delivered_or_dropped.
+(* two reconnect generations of client id 5; a will of the first reconnect (connection 3) wakes a request of the closed
+   original (connection 2) while 3 is being torn down; the second reconnect (connection 4) gets the next reply *)
+Example C18_reply_delivered_nonvacuous :
+  let st := fst (crun cf_repaired (init_cstate 1000000 1) w_reconnect_twice) in
+  cs_dead st = false /\ cs_stuck st = [] /\ is_open (cs_conns st) 2 = false /\
+  aget (r_target (cs_rs st)) 2 = Some None /\ aget (cs_clients st) 5 = Some 4 /\
+  snd (fst (async_result cf_repaired (cs_conns st) (cs_clients st) (cs_rs st) 2 a_reply)) = [CFrame 4 2 a_reply] /\
+  frame_to 4 2 (snd (cstep cf_repaired st (CReq 1 (unlockc 13 102 8)))) = true.
+Proof. exact reconnect_twice_delivered. Qed.
+
+(* after that reply: the proxy of closed connection 2 points at connection 4, which is open and announced client id 5;
+   clients[5] is connection 4, open, INITed as 5; had connection 3 (closing) been asked it would have refused *)
+Example C18_proxy_target_nonvacuous :
+  let st := fst (crun cf_repaired (init_cstate 1000000 1) (w_reconnect_twice ++ [CReq 1 (unlockc 13 102 8)])) in
+  chk_addproxy cf_repaired = true /\ cs_dead st = false /\ cs_stuck st = [] /\
+  aget (r_target (cs_rs st)) 2 = Some (Some 4) /\ is_open (cs_conns st) 4 = true /\ is_open (cs_conns st) 2 = false /\
+  k_cid (conn_of (cs_conns st) 2) = 5 /\ evr (cs_ever st) 4 = [5] /\
+  aget (cs_clients st) 5 = Some 4 /\ k_inited (conn_of (cs_conns st) 4) = true /\ k_cid (conn_of (cs_conns st) 4) = 5 /\
+  (* registration: INIT of an open binary connection registers it; another connection's request leaves it alone *)
+  aget (cs_clients (fst (cstep cf_repaired st (CInit 1 5)))) 5 = Some 1 /\
+  aget (cs_clients (fst (cstep cf_repaired st (CClose 1)))) 5 = Some 4.
 Proof. vm_compute. repeat split; reflexivity. Qed.
 
 (* ---- the property as stated is refuted by the faithful model (each witness is replayed on the Go code) ---- *)
@@ -162,3 +287,16 @@ Theorem C18_refuted_text_close_blocks :
 Proof. exact text_close_blocks_refuted_ex. Qed.
 Goal True. idtac "ASSUMPTIONS-OF C18_refuted_text_close_blocks". Abort.
 Print Assumptions C18_refuted_text_close_blocks.
+
+(* with the AddProxy result ignored (the assignment of the proxy target no longer guarded): a proxy ends up glued to a
+   closed connection and the next reply is dropped although an open connection is registered under the same client id *)
+Theorem C18_refuted_proxy_glued :
+  exists acts p c c2 r,
+    let st := fst (crun cf_no_addproxy_check (init_cstate 1000000 1) acts) in
+    cs_dead st = false /\ cs_stuck st = [] /\ is_open (cs_conns st) p = false /\
+    aget (r_target (cs_rs st)) p = Some (Some c) /\ is_open (cs_conns st) c = false /\
+    aget (cs_clients st) (k_cid (conn_of (cs_conns st) p)) = Some c2 /\ is_open (cs_conns st) c2 = true /\
+    snd (fst (async_result cf_no_addproxy_check (cs_conns st) (cs_clients st) (cs_rs st) p r)) = [CDropped p r].
+Proof. exact proxy_glued_refuted_ex. Qed.
+Goal True. idtac "ASSUMPTIONS-OF C18_refuted_proxy_glued". Abort.
+Print Assumptions C18_refuted_proxy_glued.
